@@ -1,0 +1,65 @@
+//go:build verif
+// +build verif
+
+package mqtt
+
+// Exported aliases of unexported pure helpers for the external verification
+// harness in /verif. Compiled only with the "verif" build tag.
+
+import (
+	"context"
+	"io"
+	"sync/atomic"
+)
+
+// VerifRemainingLength exposes remainingLength.
+func VerifRemainingLength(n int) []byte { return remainingLength(n) }
+
+// VerifWrapError exposes wrapError.
+func VerifWrapError(err error, failure string) error { return wrapError(err, failure) }
+
+// VerifWrapErrorWithRetry exposes wrapErrorWithRetry.
+func VerifWrapErrorWithRetry(err error, retry func(context.Context, *BaseClient) error, failure string) error {
+	return wrapErrorWithRetry(err, retry, failure)
+}
+
+// VerifRequestTimeoutError builds a RequestTimeoutError around err.
+func VerifRequestTimeoutError(err error) error { return &RequestTimeoutError{err} }
+
+// VerifSetIDLast positions the packet id counter of a connected client.
+func VerifSetIDLast(c *BaseClient, v uint32) { atomic.StoreUint32(&c.idLast, v) }
+
+// VerifReadPacket exposes readPacket.
+func VerifReadPacket(r io.Reader) (byte, byte, []byte, error) {
+	t, f, b, err := readPacket(r)
+	return byte(t), f, b, err
+}
+
+// VerifParse hands contents to the parser of the given broker->client packet type.
+// It returns false if the type has no parser.
+func VerifParse(pktType byte, flag byte, contents []byte) (bool, error) {
+	var err error
+	switch packetType(pktType) {
+	case packetConnAck:
+		_, err = (&pktConnAck{}).Parse(flag, contents)
+	case packetPublish:
+		_, err = (&pktPublish{}).Parse(flag, contents)
+	case packetPubAck:
+		_, err = (&pktPubAck{}).Parse(flag, contents)
+	case packetPubRec:
+		_, err = (&pktPubRec{}).Parse(flag, contents)
+	case packetPubRel:
+		_, err = (&pktPubRel{}).Parse(flag, contents)
+	case packetPubComp:
+		_, err = (&pktPubComp{}).Parse(flag, contents)
+	case packetSubAck:
+		_, err = (&pktSubAck{}).Parse(flag, contents)
+	case packetUnsubAck:
+		_, err = (&pktUnsubAck{}).Parse(flag, contents)
+	case packetPingResp:
+		_, err = (&pktPingResp{}).Parse(flag, contents)
+	default:
+		return false, nil
+	}
+	return true, err
+}
